@@ -16,7 +16,8 @@ From PV Require Import Base.Exn Model.PipeKernel Model.Subproc Proofs.SubprocRea
 Import ListNotations.
 
 (* after fix K2 (join()/rx.close() in a finally): the REGENERATED programs pass the STRICT sweep *)
-Lemma programs_check : check_all Gen.Subproc.parent_prog Gen.Subproc.child_prog true false = true.
+(* after fix K5 (cleanup handler around the wait): strict also for cancellation *)
+Lemma programs_check : check_all Gen.Subproc.parent_prog Gen.Subproc.child_prog true true = true.
 Proof. vm_cast_no_check (@eq_refl bool true). Qed.
 
 (* reference: the current parent program with the wait under `except BaseException:` whose body removes
